@@ -126,24 +126,28 @@ struct Builder {
 // ------------------------------------------------------------------ context
 static void add_unique(std::vector<uint32_t> &v, uint32_t f) { if (std::find(v.begin(), v.end(), f) == v.end()) v.push_back(f); }
 
-static int dry_requests(Context &gc, int kind, uint32_t flags) {
-	// run the creating call once without faults and count its allocation requests
+static std::string rc_key(int kind, uint32_t flags) { return std::string(kind_name(kind)) + ":" + std::to_string(flags & ~F_V2); }
+
+// One fault-free dry run that issues every creating call x flag set once and records how many allocation
+// requests each made (the fault enumeration needs the counts). One cache initialisation serves all of them.
+static void prime_request_counts(Context &gc) {
 	Plan p; p.property = "dry"; p.keys.push_back(Blob(12, 1000)); p.inputs.push_back(Blob(76, 2000));
 	auto emit = [&](int k) -> Op & { Op o; o.kind = k; p.ops.push_back(o); return p.ops.back(); };
-	int target = -1;
-	if (kind == ALLOC_CACHE) { Op &o = emit(ALLOC_CACHE); o.c = 0; o.flags = flags; target = 0; }
-	else if (kind == ALLOC_DATASET) { Op &o = emit(ALLOC_DATASET); o.d = 0; o.flags = flags; target = 0; }
-	else {
-		{ Op &o = emit(ALLOC_CACHE); o.c = 0; o.flags = 0; }
-		{ Op &o = emit(INIT_CACHE); o.c = 0; o.key = 0; }
-		if (flags & F_FULL) { Op &o = emit(ALLOC_DATASET); o.d = 0; o.flags = 0; }
-		Op &o = emit(CREATE_VM); o.v = 0; o.flags = flags; o.c = (flags & F_FULL) ? -1 : 0; o.d = (flags & F_FULL) ? 0 : -1;
-		target = (int)p.ops.size() - 1;
+	std::vector<std::pair<size_t, std::string>> targets;
+	{ Op &o = emit(ALLOC_CACHE); o.c = 0; o.flags = 0; }
+	{ Op &o = emit(INIT_CACHE); o.c = 0; o.key = 0; }
+	{ Op &o = emit(ALLOC_DATASET); o.d = 0; o.flags = 0; }
+	for (uint32_t cf : gc.cache_flagsets) { Op &o = emit(ALLOC_CACHE); o.c = 1; o.flags = cf; targets.push_back({p.ops.size() - 1, rc_key(ALLOC_CACHE, cf)}); Op &r = emit(RELEASE_CACHE); r.c = 1; }
+	for (uint32_t df : {0u, F_LARGE}) { Op &o = emit(ALLOC_DATASET); o.d = 1; o.flags = df; targets.push_back({p.ops.size() - 1, rc_key(ALLOC_DATASET, df)}); Op &r = emit(RELEASE_DATASET); r.d = 1; }
+	std::vector<uint32_t> vmf = gc.vm_flagsets_light; vmf.insert(vmf.end(), gc.vm_flagsets_fast.begin(), gc.vm_flagsets_fast.end());
+	for (uint32_t f : vmf) {
+		Op &o = emit(CREATE_VM); o.v = 0; o.flags = f; o.c = (f & F_FULL) ? -1 : 0; o.d = (f & F_FULL) ? 0 : -1;
+		targets.push_back({p.ops.size() - 1, rc_key(CREATE_VM, f)});
+		Op &r = emit(DESTROY_VM); r.v = 0;
 	}
 	exec::Options opt;
-	exec::Report r = exec::execute(p, opt);
-	if (r.invalid || (int)r.results.size() <= target) return 0;
-	return r.results[target].requests;
+	exec::Report rep = exec::execute(p, opt);
+	for (auto &t : targets) gc.request_counts[t.second] = (rep.invalid || t.first >= rep.results.size()) ? 0 : rep.results[t.first].requests;
 }
 
 void init_context(Context &gc) {
@@ -184,14 +188,10 @@ static void creating_fault(Builder &b, Op &o, int nreq) {
 	o.expect_null = true;
 }
 
-static std::string rc_key(int kind, uint32_t flags) { return std::string(kind_name(kind)) + ":" + std::to_string(flags & ~F_V2); }
 static int req_count(Context &gc, int kind, uint32_t flags) {
-	std::string k = rc_key(kind, flags);
-	auto it = gc.request_counts.find(k);
-	if (it != gc.request_counts.end()) return it->second;
-	int n = dry_requests(gc, kind, flags & ~F_V2);
-	gc.request_counts[k] = n;
-	return n;
+	if (gc.request_counts.empty()) prime_request_counts(gc);
+	auto it = gc.request_counts.find(rc_key(kind, flags));
+	return it != gc.request_counts.end() ? it->second : 0;
 }
 
 static void history(Builder &b, const HistoryOpts &ho) {
